@@ -20,6 +20,7 @@ RULE = (
     "array with zeros}; representation in {dict of arrays, numpy.recarray, pandas.DataFrame}; optional split of the batch "
     "into 2..3 successive fill.numpy calls). distinct = digest(spec, rows, weights, representation, split); "
     "non-trivial = >=1 row with positive weight and the twin comparison was evaluated"
+    ' Every 8th case is an edge sweep (one binning of Counts with a geometry drawn from decimal fractions, batch = every edge/midpoint/centre +-3ulp); selection columns are also int64/int32/uint8/bool, number columns also int64.'
 )
 ASSUMPTIONS = [
     "categories in array form are numpy str arrays (None/NaN categories cannot be put in one array with strings: numpy.unique rejects them before any histogram logic)",
